@@ -22,6 +22,7 @@ From Coq Require Import NArith List Bool Arith Lia.
 From CL Require Import Base.Sx Base.Res Base.Str Regex.Rx Model.Entry Model.Parse
   Generated.RxParser Model.ParseFormats Model.ParseFluent Proofs.WalkSpec Proofs.C01Final
   Proofs.FluentWalkSpec Proofs.FluentWalkProofs.
+From CL Require Proofs.FluentTrim.
 Import ListNotations.
 
 Theorem C01_lossless_properties : forall s : str, lossless (stateless gn_properties) tt s.
@@ -48,20 +49,28 @@ Proof. exact C01Final.lossless_dtd. Qed.
 (* Fluent: FluentParser.walk over the body fluent.syntax returns.  Partial:
    [body_ok] (Proofs/FluentWalkSpec.v) is the contract assumed of the library —
    top-level entries have ordered, non-empty, non-overlapping spans inside the
-   text, a junk entry's content is its slice of the text and keeps a non-blank
-   character after trimming, id/value spans lie inside their entry — and is
-   checked by the harness on every generated input.  Under it:
+   text, a junk entry's content is its slice of the text, id/value spans lie
+   inside their entry — and is checked by the harness on every generated input.
+   That trimming a junk entry leaves a non-empty entry is no longer part of the
+   contract: it is proved for the two inline regexes of walk and its
+   white-space-only guard (C01_fluent_trim; before the repair of
+   FluentParser.walk it was false for a junk line holding only tabs).  Under it:
      lossless_fluent s body := let es := walk_fluent false s body in
         length es <= length s /\ concat (map (all_text s) es) = s /\ tiles s 0 es /\
         Forall spans_inside es /\ walk_fluent true s body = filter is_localizable es *)
+Theorem C01_fluent_trim : forall content : str, content <> [] ->
+  lead rx_ftl_lead (trim_content content) + trail rx_ftl_trail (trim_content content)
+  < length content.
+Proof. exact FluentTrim.ftl_trim_ok. Qed.
+
 Theorem C01_fluent_partial : forall (s : str) (body : list fentry),
-  body_ok rx_ftl_lead rx_ftl_trail s 0 body ->
+  body_ok s 0 body ->
   lossless_fluent rx_ftl_lead rx_ftl_trail s body.
-Proof. exact (walk_fluent_lossless rx_ftl_lead rx_ftl_trail). Qed.
+Proof. exact (walk_fluent_lossless rx_ftl_lead rx_ftl_trail FluentTrim.ftl_trim_ok). Qed.
 
 (* the contract is satisfiable: "k = v\n\n" with one message and a blank gap *)
 Example C01_fluent_contract_example :
-  body_ok rx_ftl_lead rx_ftl_trail (map N.of_nat [107; 32; 61; 32; 118; 10; 10]) 0
+  body_ok (map N.of_nat [107; 32; 61; 32; 118; 10; 10]) 0
           [mkf FMessage (0, 6) (0, 1) (Some (4, 5)) []].
 Proof.
   unfold body_ok, fentry_ok, span_inside. cbn.
